@@ -103,11 +103,18 @@ def judge_serves(ctx: Ctx, targets_by_api, tree, kind="serve"):
         if n_in_t >= 400:
             t, n_in_t = t + 1, 0
     ctx.count(len(targets_by_api))
-    _judge(ctx, lines, lambda ln: (ln.get("api", "tree"), {"api": ln.get("api"), "raw": ps.txt(ln.get("raw", []))}), kind)
+    qbase = tree.base.replace("/", "%2F")   # replay files must not depend on this run's scratch directory
+
+    def describe(ln):
+        raw = ps.txt(ln.get("raw", [])).replace(tree.base, "{BASE}").replace(qbase, "{QBASE}")
+        suffix = ln.get("api", "tree") + (":" + ln["exc"] if ln.get("exc") else "")
+        return suffix, {"api": ln.get("api"), "raw": raw}
+
+    _judge(ctx, lines, describe, kind)
     if stats["200"] == 0 or stats["404"] == 0:
         raise MachineryError(f"end-to-end driver is vacuous: {stats}")
     for k, v in excs.items():
-        ctx.notes.setdefault("e2e_exceptions_not_judged_as_escape", {})[k] = v
+        ctx.notes.setdefault("e2e_exceptions", {})[k] = v
     return stats
 
 
@@ -138,7 +145,7 @@ def join_cases(ctx: Ctx):
     q = ctx.quick
     rng = random.Random(ctx.seed)
     cases = []
-    for cfg in (["MCX_a3p1", "MCX_a2p2_q", "MCX_small_p3"] if q else ["MCX_a3p1", "MCX_a2p2", "MCX_small_p3"]):
+    for cfg in (["MCX_a3p1", "MCX_a2p2_q", "MCX_small_p3"] if q else ["MCX_a3p1", "MCX_a2p2", "MCX_small_p3", "MCX_full_p3"]):
         for v in ctx.export(AREA, "MCPathSafety", cfg, count_states=False, timeout=3000):
             if isinstance(v, dict) and "parts" in v:
                 cases.append([ps.txt(v["dir"]), [ps.txt(p) for p in v["parts"]], {"ok": v["ok"], "path": v["path"]}])
@@ -167,7 +174,7 @@ def serve_targets(ctx: Ctx):
         for api in ps.APIS:
             out.append((api, raw))
     more = ps.enum_targets(ps.CORE_SEGS, 3)[len(ps.CORE_SEGS) + len(ps.CORE_SEGS) ** 2:]
-    more += ps.random_targets(rng, 1500 if q else 40000)
+    more += ps.random_targets(rng, 1500 if q else 15000)
     if not q:
         more += ps.enum_targets(ps.SEGS, 2)
     for n, raw in enumerate(more):
@@ -224,7 +231,11 @@ def run(ctx: Ctx):
     # safe_join
     cases, n_model = join_cases(ctx)
     ctx.notes["join_cases_from_model"] = n_model
-    ctx.notes["join_outcomes"] = judge_joins(ctx, cases)
+    seen = {"none": 0, "path": 0, "exc": 0}
+    for k in range(0, len(cases), 100000):
+        for key, n in judge_joins(ctx, cases[k:k + 100000]).items():
+            seen[key] += n
+    ctx.notes["join_outcomes"] = seen
     if ctx.notes["join_outcomes"]["path"] == 0 or ctx.notes["join_outcomes"]["none"] == 0:
         raise MachineryError(f"safe_join driver is vacuous: {ctx.notes['join_outcomes']}")
     # end to end
@@ -233,7 +244,7 @@ def run(ctx: Ctx):
     # secure_filename
     cases, n_model = san_cases(ctx)
     ctx.notes["filename_cases_from_model"] = n_model
-    ctx.notes["filenames_changed"] = judge_sans(ctx, cases)
+    ctx.notes["filenames_changed"] = sum(judge_sans(ctx, cases[k:k + 120000]) for k in range(0, len(cases), 120000))
 
 
 def replay(ctx: Ctx, data):
@@ -246,4 +257,6 @@ def replay(ctx: Ctx, data):
         judge_sans(ctx, [[ps.txt(case["x"])]], kind)
     else:
         tree = ps.Tree(os.path.join(ctx.tmp, "e2e-probe"))
-        judge_serves(ctx, [(case["api"], case["raw"]), (case["api"], "a.txt"), (case["api"], "../secret.txt")], tree, kind)
+        raw = case["raw"].replace("{BASE}", tree.base).replace("{QBASE}", tree.base.replace("/", "%2F"))
+        # two fixed companions keep the driver's own sanity check (some 200, some 404) meaningful
+        judge_serves(ctx, [(case["api"], raw), (case["api"], "a.txt"), (case["api"], "nothing-here")], tree, kind)
